@@ -87,11 +87,15 @@ impl ByteModel {
             return;
         }
         self.perm_ranges.push((address, len, perms));
+        // (ranges never wrap; one may end exactly at 2^64)
         let mut p = address & !(PAGE - 1);
-        let end = address + len;
-        while p < end {
+        let last = address + (len - 1);
+        while p <= last {
             self.perm_pages.insert(p);
-            p += PAGE;
+            match p.checked_add(PAGE) {
+                Some(n) => p = n,
+                None => break,
+            }
         }
     }
 
@@ -103,7 +107,7 @@ impl ByteModel {
         let page = address & !(PAGE - 1);
         for &(start, len, perms) in self.perm_ranges.iter().rev() {
             let first_page = start & !(PAGE - 1);
-            let last_page = (start + len - 1) & !(PAGE - 1);
+            let last_page = (start + (len - 1)) & !(PAGE - 1);
             if page >= first_page && page <= last_page {
                 if address >= start && address - start < len {
                     return PermExpect::Exactly(Some(perms));
